@@ -194,3 +194,45 @@ Example ex_spiral_fails :
   snd r = AErr EValue /\ stack (fst (fst r)) = [] /\ opened (snd (fst r)) = []
   /\ map n_value (trees (snd (fst r))) = [None] /\ length (browse (trees (snd (fst r)))) = 4.
 Proof. vm_compute. repeat split; reflexivity. Qed.
+
+(** ** Tie to the regenerated descriptions of the storages and of the holder
+
+    coq/gen/GuardsStorage.v is re-emitted on every run from the Python text of get / put /
+    delete (get_known_periods pinned to the dictionary's keys) of InMemoryStorage and
+    OnDiskStorage, coq/gen/GuardsHolder.v from Holder.get_array / put_in_cache / _set /
+    delete_arrays and the construction of the two storages (harness/gen_tables.py,
+    fail-closed).  The memory and the disk storage have the same description: the same key
+    for the same request, the same deletion rule - which is why keeping values in memory or
+    on disk cannot change an answer; that description is [Engine.norm] / [delete_one] /
+    [delete_arrays]; the holder only chooses WHERE a value is read or written, and on the
+    merged cache ([merged], coq/model/GuardsHolderSem.v) that is [Engine.get_array] /
+    [put_in_cache]. *)
+From Verif Require Import GuardsTypes GuardsStorage GuardsStorageSem GuardsStorageProofs.
+From Verif Require Import GuardsHolder GuardsHolderSem GuardsHolderProofs.
+
+Theorem source_storages_are_model_storages :
+  (* the two storages agree *)
+  (forall is_eternal period_is_none,
+     gen_memory_get_key is_eternal period_is_none = gen_disk_get_key is_eternal period_is_none
+     /\ gen_memory_put_key is_eternal period_is_none = gen_disk_put_key is_eternal period_is_none
+     /\ gen_memory_delete is_eternal period_is_none = gen_disk_delete is_eternal period_is_none)
+  (* a value is found under the key it was stored under *)
+  /\ (forall is_eternal period_is_none,
+        gen_memory_get_key is_eternal period_is_none = gen_memory_put_key is_eternal period_is_none)
+  (* the key is the engine's, whichever storage _set chooses *)
+  /\ (forall x p, norm x p = apply_key (gen_memory_get_key (unit_eqb (v_unit x) Eternity) false) p)
+  /\ (forall c x p, store_key c x p = norm x p)
+  (* deletion *)
+  /\ (forall sy k c, delete_one sy k c = src_delete_one sy k c)
+  /\ (forall sy s v p, delete_arrays sy s v p = src_delete_arrays sy s v p)
+  (* the holder on the merged cache *)
+  /\ (forall pp x s mem disk has_disk v p, merged (cache s) mem disk has_disk ->
+        get_array pp x s v p = src_get_array pp x mem disk has_disk v p)
+  /\ (forall dns oo ne inb x v p a s, v_nostore x = dns || (oo && ne && inb) ->
+        put_in_cache x v p a s = src_put_in_cache dns oo ne inb x v p a s).
+Proof.
+  exact (conj storages_agree (conj get_key_is_put_key (conj norm_is_source_get
+        (conj store_key_is_norm (conj delete_one_is_source (conj delete_arrays_is_source
+        (conj get_array_is_source put_in_cache_is_source))))))).
+Qed.
+Print Assumptions source_storages_are_model_storages.
